@@ -16,7 +16,8 @@ CLAIMED = {
          "R5: type rows trace exactly the reference fields, up to the live-slot counter. R3a/R3b: a fresh object is not kept in an unrooted "
          "local (incl. a reassigned parameter, a rooted local before its registration, a local handed to a parameter its callee reads after "
          "allocating) across a must-allocate call and used afterwards. R4: the VM publishes its stack top before every call that may allocate. "
-         "R6: object words in bytecode are on the literal list. R7: no collection point sees a traced slot holding a raw C pointer. "
+         "R6: object words in bytecode are on the literal list. R7: no collection point sees a traced slot holding a raw C pointer. R8: sexp_release_object unlinks one registration per call. "
+         "R9: a C pointer into the data of a fresh object known through one local is not used after that local was overwritten and a may-allocate call followed. "
          "Sound all-paths decisions of these clauses (necessary conditions: a dangling, dropped or missing root is "
          "dereferenced / lost by the next collection), not of schedule-independence as such.",
          "typestate (link-stack) dataflow over the clang CFG, path-sensitive for stable correlated predicates; "
